@@ -69,8 +69,9 @@ def scenario(ck, trial, tier, reqs_assembly, reqs_node):
         cs0 = chaingen.impl_state_from(main)
         idm = nodeharness.IdMap()
         with simnet.Net(seed=rng.getrandbits(30), t0=main[-1].view.time + 50) as net:
-            old_time = MI.time
-            MI.time = net.clock
+            old_time = getattr(MI, 'time', None)
+            if old_time is not None:
+                MI.time = net.clock
             try:
                 sn = nodeharness.SingleNode(net, cs0, [m.block for m in main[1:]], npeers=3)
                 sn.new_messages()
@@ -248,7 +249,8 @@ def scenario(ck, trial, tier, reqs_assembly, reqs_node):
                         ck.violation('exception-escaped', 'an exception escaped: %s' % sn.node.escaped[0][1], rp)
                         return
             finally:
-                MI.time = old_time
+                if old_time is not None:
+                    MI.time = old_time
 
 
 def run(tier, seed):
